@@ -32,6 +32,8 @@ type Value struct {
 	Definition         *Definition
 	VariableDefinition *VariableDefinition
 	ExpectedType       *Type
+	// ExpectedTypeHasDefault is set when the argument or input field this value is given for declares a default value
+	ExpectedTypeHasDefault bool `dump:"-" json:"-"`
 }
 
 type ChildValue struct {
